@@ -48,6 +48,46 @@ short = {
     'C19-2': 'v2: output/feedback closed only on the success path: v2 simple handlers left after a divider fault',
     'C20-1': 'same code change as C08-1',
     'C20-2': 'same code change as C08-2',
+    'C01-3': 'v2: calcVacants skips the counter of a closed unbuffered input: its held items are not counted as busy',
+    'C01-4': 'v1: calcVacants sums only registered inputs: the counter of a removed input is ignored',
+    'C02-3': 'v1: removePriority by binary search without equality check: RemoveInput of an ABSENT priority drops the next higher one from the served list',
+    'C02-4': 'v2 simple: handler start loop off by one (H-1 handlers; none at all for H=1)',
+    'C03-3': 'v1 join: an element arriving between timeout expiry and the next tick triggers the flush and is itself dropped',
+    'C03-4': 'unite: accumulator preallocated to min(J,1024) and the fit test uses free capacity: for J > 1024 slices are glued beyond JoinSize (two cooperating sites)',
+    'C04-3': 'limit: interval start refreshed only after a real sleep: after one long batch the limiter never delays again',
+    'C04-4': 'limit: oversleep compensation without clamp: after a stall the following delays are skipped',
+    'C05-3': 'v1: feedback collected between the two phases and the remainder taken from the vacancies: grouped releases are re-divided (two cooperating sites)',
+    'C05-4': 'v2: SortPriorities with a subtracting comparator: a priority value above MaxInt sorts as the lowest',
+    'C06-3': 'v2: interrupt flag of the unbuffered reader reset every iteration: the scheduler never leaves an idle unbuffered input',
+    'C06-4': 'v1 Simple: handler start loop off by one',
+    'C07-3': 'v1: clearActual without the zero test: GracefulStop returns while items of a removed priority are unreleased',
+    'C07-4': 'v1: a closed unbuffered input is not marked drained: GracefulStop never returns',
+    'C08-3': 'v1 join no-copy: pass() no longer honours the unreleased flag: after a stop before release the same buffer is sent again',
+    'C08-4': 'v2 join copy mode: outputs are windows of one buffer, capacity not clipped: the spare capacity of a kept slice overlaps later outputs',
+    'C09-3': 'v1 join: elapsed time rounded to the tick before the comparison: up to half a tick early',
+    'C09-4': 'unite: oversize shortcut tests cap(item) instead of len(item): sub-slices of a big buffer flush the accumulator',
+    'C10-3': 'v1 join: time.After per select iteration instead of a ticker: a fast trickle starves the timeout',
+    'C10-4': 'v2 join: requested inaccuracy below 25 silently raised to 25',
+    'C11-3': 'unite (timeouted loop): closure detected by item == nil: a nil input slice ends the discipline',
+    'C11-4': 'unite (timeouted loop): a slice arriving after expiry is forwarded at once, an empty one as an empty output',
+    'C12-3': 'limit: only the sends are timed, not the wait for input: a slow portion is followed by a full pause',
+    'C12-4': 'limit: an incomplete last portion is treated like a full one: the closure comes one Interval late',
+    'C13-3': 'rate: "already flat" shortcut for Quantity 1 ignores the minimum',
+    'C13-4': 'rate: uint64 fast path with an addition-style overflow test: wrapped products give a wrong quantity',
+    'C14-3': 'v1 Fair: creates a new map when the given one is empty but non-nil',
+    'C14-4': 'v1 Rate: leftover spread one unit per priority instead of all to the highest',
+    'C15-3': 'v1 safeDivide: `>` for `!=`: under-allocation no longer detected',
+    'C15-4': 'v1 addInput: divides before sorting: one call with the new priority at the tail',
+    'C16-3': 'same code change as C08-3 (different agent)',
+    'C16-4': "v1 Simple: Handle gets the parent context instead of the handler's: Stop() cannot interrupt busy handlers",
+    'C17-3': 'v1: isZeroActual looks only at registered priorities: graceful end does not wait for items of a removed priority',
+    'C17-4': 'v1: removeInput ignores priorities that have not carried traffic yet',
+    'C18-3': 'v1 PickUpMinNonFatalQuantity by binary search over a non-monotone predicate',
+    'C18-4': 'v2 constructor: fail-fast guard `H <= len(Inputs)` rejects exactly one handler per input',
+    'C19-3': 'same code change as C07-2 (different agent)',
+    'C19-4': 'v1: graceful.Complete() moved before the wait for feedback: GracefulStop returns while the goroutine still waits',
+    'C20-3': 'v1 RemoveInput reads the inputs map in the caller\'s goroutine',
+    'C20-4': 'v2 Release reads the inputs map in the handler\'s goroutine',
 }
 
 
@@ -67,12 +107,21 @@ def main():
     mpath = os.path.join(V, 'notes', 'mutant-matrix.txt')
     own = {}
     seeded = {}
-    if os.path.exists(mpath):
-        for line in open(mpath):
+    lines = []
+    for f in (mpath, os.path.join(V, 'notes', 'seeded-matrix.txt')):
+        if os.path.exists(f):
+            lines += open(f).readlines()
+    if f == mpath and os.path.exists(os.path.join(V, 'notes', 'seeded-matrix.txt')):
+        pass
+    if lines:
+        have_new = os.path.exists(os.path.join(V, 'notes', 'seeded-matrix.txt'))
+        for line in lines:
             p = line.split()
             if len(p) != 4:
                 continue
             kind, name, chk, verdict = p
+            if kind == 'seeded' and have_new and line in open(mpath).read().splitlines(True):
+                continue  # superseded by the newer seeded-only run
             (own if kind == 'own' else seeded).setdefault(name, []).append((chk, verdict))
     if own:
         w('   | mutant | caught by | silent (other properties) |')
@@ -93,10 +142,13 @@ def main():
       '   own scratch worktree (nothing from `/verif`) and wrote two changes that break the property, still compile and\n'
       '   pass the pinned suite, with a demonstration test. I confirmed each one myself (`tools/verify_seed.sh`: demo\n'
       '   passes on the pristine tree, fails with the patch, pinned suite of the touched module passes with the patch)\n'
-      '   and kept it as `seeded/<id>-<k>/` (patch.diff, demonstration, DEMO.md, meta.json). 40 changes, 33 distinct.\n'
-      '   **32 were caught by the owning check at the first try; 8 were not (5 of them by no check at all).** Each miss\n'
-      '   showed a real weakness - a workload that was too narrow, an oracle that was sound but too weak, or an\n'
-      '   observation taken too late - and was closed by strengthening the monitor, never by special-casing the change:\n')
+      '   and kept it as `seeded/<id>-<k>/` (patch.diff, demonstration, DEMO.md, meta.json). Two rounds of two changes\n'
+      '   per property (the second round was told what the first had produced and asked for something different):\n'
+      '   80 changes, about 70 distinct. **Round 1: 32 of 40 caught by the owning check at the first try; round 2: 28\n'
+      '   of 40.** Each miss showed a real weakness - a workload that was too narrow (unusual configurations above\n'
+      '   all), an oracle that was sound but too weak, or an observation taken too late - and was closed by\n'
+      '   strengthening the monitor, never by special-casing the change. After that all 80 are caught, with one\n'
+      '   deliberate exception (C19-3, see the table):\n')
     w('   | change | what it does / what it needs | caught by | first try |')
     w('   |---|---|---|---|')
     for d in sorted(glob.glob(os.path.join(V, 'seeded', '*', ''))):
@@ -104,19 +156,29 @@ def main():
         m = json.load(open(os.path.join(d, 'meta.json')))
         ran = m.get('what_i_ran', '')
         first = 'yes'
-        if re.search(r'first (silent|missed)', ran):
+        if re.search(r'first (silent|missed|inconclusive)', ran) or 'BY DESIGN' in ran:
             first = '**no**'
         w('   | %s | %s | %s | %s |' % (name, short.get(name, m['summary'][:120]), ' '.join(m['caught_by_checks']), first))
     w('')
-    w('   What the eight misses changed in the machinery: C06-1 -> the lone-burst probe (b\'); C02-1 / C07-1 -> loss at a\n'
+    w('   What the misses of round 1 changed in the machinery: C06-1 -> the lone-burst probe (b\'); C02-1 / C07-1 -> loss at a\n'
       '   normal termination is reported under C02, C07 and C17, closed-and-drained channels are replaced by the\n'
       '   generator, C02 and C07 got the v1 add/remove block; C07-2 -> Handle takes 0-300 ns virtual to return on\n'
       '   cancel and `entered = returned` is compared at the instant of closure (C07 and C16); C09-1 -> stamps before\n'
       '   every receive and the buffer-room bound for slow consumers; C11-1 -> the value-based C11 oracle; C12-1 ->\n'
-      '   "unlimited" quantities; C12-2 -> timing form (3). `meta.json` of each change records what was run and seen.\n')
+      '   "unlimited" quantities; C12-2 -> timing form (3). Round 2: C02-3 -> RemoveInput of priorities that are not\n'
+      '   registered; C02-3 / C02-4 -> items that are never delivered are reported under C02 / C17, not only C06;\n'
+      '   C03-4 -> JoinSize 1025..4024; C05-4 -> priority values beyond the signed range (and priority 0); C08-3 ->\n'
+      '   nothing may follow a no-copy slice that was never released; C09-4 -> input slices cut out of larger buffers;\n'
+      '   C11-3 / C11-4 -> nil input slices, never-delivered and empty-output reported under C11; C12-4 -> timing form\n'
+      '   (4) for the closure; C17-3 -> an end game that withholds only the items of removed priorities; C19-4 -> the\n'
+      '   return of GracefulStop is judged when it is observed (never-early conditions for C07, census for C19). The\n'
+      '   misses of round 2 were mostly about unusual inputs, so the generators were also widened where nobody had\n'
+      '   asked yet: nil Ctx, buffered Released channel, zero / negative timeouts, two concurrent Stop calls, Stop with\n'
+      '   cancel, repeated Stop / GracefulStop after termination, Interval of 1 ns and of months. `meta.json` of each\n'
+      '   change records what was run and seen.\n')
     if seeded:
         bad = [(n, c, v) for n, l in seeded.items() for c, v in l if v != 'CAUGHT']
-        w('   Re-run of all 40 after the last strengthening (`tools/mutant_matrix.sh`, quick tier): %d (change, check)\n'
+        w('   Re-run of all of them after the last strengthening (`tools/mutant_matrix.sh`, quick tier): %d (change, check)\n'
           '   pairs, %d caught%s.\n' % (sum(len(l) for l in seeded.values()), sum(1 for l in seeded.values() for c, v in l if v == 'CAUGHT'),
                                          '' if not bad else '; not caught: ' + ', '.join('%s/%s(%s)' % b for b in bad)))
     w('4. Anything a realistic break leaves invisible gets more observability (another workload or observation\n'
